@@ -58,7 +58,7 @@ ASSUMPTIONS = [
 # target -> (documented default integer syntax, int op, float op, byte op, byte order)
 CPUS = {"68000": ("moto", "dc.q", "dc.d", "dc.b", "big"), "8086": ("intel", "dq", "dq", "db", "little"),
         "8051": ("intel", "dq", "dq", "db", "little"), "ppc403": ("c", "dq", "dq", "db", "little")}
-SLOT = 128
+SLOT = 512
 BASEADDR = 0x2000
 TWO63 = 1 << 63
 
@@ -586,6 +586,11 @@ def strategy_(d, tier):
         t = d.weighted([(3, "i"), (2, "f"), (2, "s")])
         name = "q_%s%d" % (t, i) if d.bool(0.7) else "Sym%s%d" % (t.upper(), i)
         node = g.int_expr(1) if t == "i" else g.float_expr(1) if t == "f" else g.str_leaf()
+        if t == "s" and d.bool(0.35):
+            # long string symbols: concatenations of them cross the 128 / 256 character steps of string storage
+            n = d.choice([60, 100, 120, 126, 127, 128, 129, 130, 150, 200])
+            c0 = d.int(0, 25)
+            node = ["s", [[65 + (c0 + j * 7) % 26 + (32 if j % 3 else 0), 0] for j in range(n)], 0]
         if t == "s" and node[0] == "s":
             node[2] = 0
         how = d.weighted([(3, "equ"), (2, "set"), (1, "="), (1, ":=")])
@@ -618,6 +623,9 @@ def strategy_(d, tier):
             e = g.float_expr(dep, top=True)
         else:
             e = g.str_expr(min(dep, 3), top=True)
+            v = g.val(e)
+            if v is not None and v[0] == "s" and len(v[1]) > 255:
+                e = g.str_leaf()             # (the manual limits strings to 255 characters)
         it["e"] = e
         setable = [s for s in symdefs if s[1] in ("set", ":=")]
         if setable and d.bool(0.06):
@@ -763,6 +771,18 @@ def fixed_cases(tier):
            C("EXPRTYPE", C("SGN", FL("2.5"))), C("EXPRTYPE", C("ABS", FL("2.5"))), C("EXPRTYPE", C("ABS", L(2))),
            C("EXPRTYPE", C("SQRT", L(4))), C("EXPRTYPE", B("=", FL("1.0"), FL("1.0"))),
            C("EXPRTYPE", B("+", S("a"), S("b")))]
+    # long strings: concatenation and multi-piece literals across the 128 / 255 character marks
+    def LS(n, c0=0):
+        return ["s", [[65 + (c0 + j * 5) % 26 + (32 if j % 2 else 0), 0] for j in range(n)], 0]
+    for a, b in ((100, 50), (127, 1), (128, 1), (126, 3), (64, 64), (129, 126), (200, 55), (1, 128), (120, 9), (130, 2)):
+        cat = B("+", LS(a), LS(b, 3))
+        sf += [cat, C("STRLEN", cat), C("STRSTR", cat, LS(min(b, 12), 3)), C("SUBSTR", cat, L(a - 2), L(6)),
+               C("CHARFROMSTR", cat, L(a + b - 1)), B("=", cat, B("+", LS(a), LS(b, 3))),
+               B("+", B("+", LS(a // 2), LS(a - a // 2, (a // 2) * 5)), LS(b, 3))]
+    for n in (127, 128, 129, 151, 254, 255):
+        lit = LS(n)
+        lit[1][n // 2] = [9, 2]          # an escape in the middle makes the literal consist of several pieces
+        sf += [lit, C("STRLEN", lit), C("UPSTRING", LS(n)), C("SUBSTR", LS(n), L(n - 5), L(5))]
     # string escapes: every character code 1..255 in every escape spelling
     for esc in (2, 3, 4):
         for base in range(1, 256, 8):
